@@ -565,7 +565,14 @@ func parseEMLAttachmentEmbed(contentDisposition []string, multiPart *multipart.P
 	cdType, optional := parseMultiPartHeader(contentDisposition[0])
 	filename := "generic.attachment"
 	if name, ok := optional["filename"]; ok {
-		filename = name[1 : len(name)-1]
+		// The filename can be given as quoted-string or as plain token. Only strip the quotes
+		// if there are any, and keep the default name if nothing is left.
+		if len(name) >= 2 && strings.HasPrefix(name, `"`) && strings.HasSuffix(name, `"`) {
+			name = name[1 : len(name)-1]
+		}
+		if name != "" {
+			filename = name
+		}
 	}
 
 	var dataReader io.Reader
